@@ -32,7 +32,7 @@ RULE = (
     "(for the nonlinear class) c(x) != 0 with non-zero constraint curvature."
 )
 ASSUMPTIONS = [
-    "cases where a projected component lies within 1e-6 of a bound are excluded (standard and lambda-scaled residual use thresholds 1e-8 vs 1e-8*dt)",
+    "cases where a projected component lies within max(1e-6, 1e-7*dt) of a bound are excluded (standard and lambda-scaled residual use thresholds 1e-8 vs 1e-8*dt)",
     "cases with cond(F') > 1e7 are excluded ('up to the linear solver's tolerance' is meaningless there)",
     "iterative solvers are held to exactly the residual criterion C17 holds them to",
 ]
@@ -80,6 +80,8 @@ def strategy(tier):
             # "for all dt > 0": up to 1/lamb_min = 1e12, the largest step the solver itself can take
             "dt": draw(st.sampled_from([0.01, 0.1, 0.5, 1.0, 4.0, 30.0, 1e3, 1e6, 1e9, 1e12])),
             "rho": draw(st.sampled_from([1e-3, 1e-2, 0.1, 1.0, 10.0])),
+            # active-set estimate: default (None) or an explicit tau (ActiveSetType.Explicit & friends)
+            "tau": draw(st.sampled_from([None, None, None, 1e-3, 0.1, 0.5, 2.0])),
         }
 
     return _s()
@@ -96,7 +98,7 @@ def gmres_bound(b):
     return max(1e-5 * np.linalg.norm(b), 1e-8) * 1.01
 
 
-def second_full_step(ri, r, method, step1, x0, y0, dt, rho, lb, ub, ss, condF):
+def second_full_step(ri, r, method, step1, x0, y0, dt, rho, lb, ub, ss, condF, tau=None):
     """Reference for the 2nd full-Newton iteration from z1 = step1.iterate with base point (x0, y0)."""
     from pygradflow.step.step_solver_error import StepSolverError
 
@@ -105,10 +107,13 @@ def second_full_step(ri, r, method, step1, x0, y0, dt, rho, lb, ub, ss, condF):
     y1 = np.array(step1.iterate.y, dtype=float)
     dxL = ri.aug_lag_dx(x1, y1, rho)
     p = x0 - dt * dxL
-    if np.any(np.abs(p - lb) <= 1e-6) or np.any(np.abs(p - ub) <= 1e-6):
+    q = p if tau is None else (1.0 - tau / dt) * x1 + (tau / dt) * x0 - tau * dxL
+    margin = max(1e-6, 1e-7 * dt)
+    if np.any(np.abs(p - lb) <= margin) or np.any(np.abs(p - ub) <= margin) or np.any(np.abs(q - lb) <= margin * (1 + np.abs(q))) or np.any(np.abs(q - ub) <= margin * (1 + np.abs(q))):
         return "skip"
-    act = (p < lb) | (p > ub)
-    proj = np.minimum(np.maximum(p, lb), ub)
+    act = (q < lb) | (q > ub)
+    proj = p.copy()
+    proj[act] = np.minimum(np.maximum(p[act], lb[act]), ub[act])
     F = np.concatenate([x1 - proj, y1 - (y0 + dt * r.c(x1))])
     Hxx = ri.aug_lag_dxx(x1, y1, rho)
     J = r.J(x1)
@@ -149,13 +154,21 @@ def check(case):
     lb, ub = r.lb, r.ub
     labels = [f"family:{spec['family']}", f"dt:{dt:g}", f"rho:{rho:g}"]
 
+    tau = case.get("tau")
+    labels.append(f"tau:{tau}")
     c = r.c(x)
     dxL = ri.aug_lag_dx(x, y, rho)
     p = x - dt * dxL
-    if np.any(np.abs(p - lb) <= 1e-6) or np.any(np.abs(p - ub) <= 1e-6):
-        return excluded("projection_within_1e-6_of_bound", labels)
-    act = (p < lb) | (p > ub)
-    proj = np.minimum(np.maximum(p, lb), ub)
+    # with an explicit tau the active set is estimated at (1 - tau/dt) x + (tau/dt) x0 - tau grad = x - tau grad
+    q = p if tau is None else x - tau * dxL
+    # knife edge: the standard residual classifies with a slack of 1e-8, the lambda-scaled one with 1e-8 on
+    # lambda * (point - bound), i.e. 1e-8 * dt in unscaled terms; agreement is not promised in between
+    margin = max(1e-6, 1e-7 * dt)
+    if np.any(np.abs(q - lb) <= margin) or np.any(np.abs(q - ub) <= margin) or np.any(np.abs(p - lb) <= margin) or np.any(np.abs(p - ub) <= margin):
+        return excluded("projection_within_margin_of_bound", labels)
+    act = (q < lb) | (q > ub)
+    proj = p.copy()
+    proj[act] = np.minimum(np.maximum(p[act], lb[act]), ub[act])
     F = np.concatenate([x - proj, y - (y + dt * c)])
     Hxx = ri.aug_lag_dxx(x, y, rho)
     J = r.J(x)
@@ -188,7 +201,7 @@ def check(case):
                 sub += 1
                 with linear_solver_faults(record=True) as fac:
                     try:
-                        method = newton_method(problem, params, it, dt, rho)
+                        method = newton_method(problem, params, it, dt, rho, tau)
                         step = method.step(it)
                     except StepSolverError:
                         labels.append(f"steperror:{ls}")
@@ -228,7 +241,7 @@ def check(case):
                 if err <= allowed and nt == "Full" and ls == "LU":
                     # second iteration of the full Newton method on the *same* method / step-solver object:
                     # the Newton step of F(. ; z, dt, rho) at z1 (derivatives and active set re-evaluated there)
-                    bad2 = second_full_step(ri, r, method, step, x, y, dt, rho, lb, ub, ss, condF)
+                    bad2 = second_full_step(ri, r, method, step, x, y, dt, rho, lb, ub, ss, condF, tau)
                     if bad2 == "skip":
                         labels.append("second_step_skipped")
                     elif bad2 is not None:
@@ -255,12 +268,12 @@ def check(case):
             if dv > 1e-12 * (1.0 + snorm) * max(condF, 1.0):
                 return violation(f"newton-variants-differ|{ss}", f"{ss}/LU: Simplified vs {nt} first steps differ by {dv:.3e}", labels, sub=sub)
     # QP clause: one step with unchanged active set solves F = 0
-    if spec["family"] == "qp" and r.affine and r.quadratic_obj:
+    if spec["family"] == "qp" and r.affine and r.quadratic_obj and tau is None:
         unclipped = x - sx
         if np.all(unclipped >= lb) and np.all(unclipped <= ub):
             zx, zy = unclipped, yn
             p2 = x - dt * ri.aug_lag_dx(zx, zy, rho)
-            if not (np.any(np.abs(p2 - lb) <= 1e-6) or np.any(np.abs(p2 - ub) <= 1e-6)):
+            if not (np.any(np.abs(p2 - lb) <= margin) or np.any(np.abs(p2 - ub) <= margin)):
                 # "unchanged active set": the same components are clipped, and to the same side
                 if np.array_equal(p2 < lb, p < lb) and np.array_equal(p2 > ub, p > ub):
                     labels.append("qp_exactness_checked")
